@@ -1,5 +1,6 @@
 import RegexVerif.Sexp
 import RegexVerif.Model.Options
+import RegexVerif.Driver.Parser
 
 namespace RegexVerif.Driver
 open RegexVerif Sexp Options
@@ -45,6 +46,7 @@ private def c18Tok : Tok → Sexp
     `(c18 run O (pat item…))` answers with the stack machine over the flattened pattern instead. -/
 def handleC18 (args : List Sexp) : String :=
   match args with
+  | .atom "parser" :: rest => handleParser rest
   | [mode, o, pat] =>
     match mode.sym?, o.nat?, (tagged? "pat" pat).bind (fun ks => ks.mapM c18Pat) with
     | some md, some k, some ps =>
